@@ -6,6 +6,7 @@ E1.b  recursion is structurally descending, or listed.
 E1.c  loops make progress (parser loops consume input, scan loops advance).
 """
 import re
+from ..lib.cfgq import normalized
 
 from ..lib.cfgq import (dominating_guards, natural_loops, cycle_avoiding, blocks_between,
                         switch_edges)
@@ -221,8 +222,9 @@ def d_unwrap(site, ctx):
         for g in dominating_guards(body, tr, skip_bb):
             c = _through_results(g.cond)
             ok_edge = g.variant in ("Some", "Ok", "Continue")
-            gc = strip(g.cond)
-            if gc[0] == "call" and re.search(r"PartialEq>::eq$|PartialEq::eq$", gc[1] or "") and g.value is True:
+            ncond, nval = normalized(g)
+            gc = strip(ncond)
+            if gc[0] == "call" and re.search(r"PartialEq>::eq$|PartialEq::eq$", gc[1] or "") and nval is True:
                 # self.try_peek() == Some(ch)
                 sides = [strip(x) for x in gc[3]]
                 pk = [x for x in sides if _is_call_to(x, r"parser::Parser::<'a>::try_peek$")]
